@@ -328,6 +328,12 @@ def leaf_diffs(a, b, out, memo=None):
             for f in dataclasses.fields(ta):
                 leaf_diffs(getattr(a, f.name), getattr(b, f.name), out, memo)
             return out
+        if isinstance(a, (tuple, int, float, complex, str, bytes)) and ta not in (tuple, int, float, complex, str, bytes, bool) and hasattr(a, '__getnewargs__'):
+            na, nb = a.__getnewargs__(), b.__getnewargs__()      # namedtuple / subclass of a builtin value type, same class on both sides
+            if len(na) == len(nb):
+                for x, y in zip(na, nb):
+                    leaf_diffs(x, y, out, memo)
+                return out
     out.append((a, b))
     return out
 
